@@ -6,6 +6,9 @@ label sets (catalogue + SI-scaled), Limit configurations over class hierarchies 
 generated history is issued on the real code (dispatcher request or driver-side call/assignment); after every
 operation all linked parameter values and the update stream are recorded.  The Lean model replays the same history
 with the same oracle outputs (correspondence), the Lean monitors judge the recorded values (failing-input search).
+Struct parameters additionally under overlapping operations: 2..3 threads (poller, client, driver) on one module under the
+deterministic scheduler (vlib.sched), judged at the quiescent points and replayed by the model (verb struct_overlap).
+Limits: values right next to a limit (one ulp, relative, absolute offsets) with exact per-case scaling.
 """
 import json
 import os
@@ -29,9 +32,17 @@ META = {
                   'parameter current at that moment whenever the automatic check applies - in particular an inherited check_<p> never '
                   'switches it off; an inverted limits pair is refused and changes nothing) + limits_enforced_plain, single_controller (per '
                   'output, any wiring of inputs to several outputs) + takeover_switches_off + outputs_independent + '
-                  'controlled_by_names_active.  Models tied to frappy/extparams.py, params.Limit, modulebase.__init_subclass__/checkLimits '
+                  'controlled_by_names_active.  Struct parameters also under OVERLAPPING operations of several threads '
+                  '(struct_members_agree_overlapped: a generated read_/write_<struct> of the member-wise layout or a generated member method '
+                  'of the combined layout with any assignments of other threads to the struct or to members before each of its steps, any '
+                  'values seen by cache reads outside updateLock; the per-thread guard counter of fix 8a147a3 is what it rests on - '
+                  'shared_guard_loses_member_update and shared_counter_update_lost are the proved counterexamples for one counter shared by '
+                  'all threads).  Models tied to frappy/extparams.py, params.Limit, modulebase.__init_subclass__/checkLimits '
                   'and mixins.py by a correspondence run on real modules behind a real dispatcher (values, update stream, pending-error '
-                  'flags after every operation); the Lean monitors judge the values recorded after every operation.',
+                  'flags after every operation) and, for struct parameters, on runs of 2..3 threads under the deterministic scheduler '
+                  '(catalogue of basic overlaps with all single preemptions + random programs and schedules; the order of the updateLock '
+                  'sections and of the cache reads is recorded and the model replays the run with the assignments of the other threads at '
+                  'these positions); the Lean monitors judge the values recorded after every operation / at every quiescent point.',
     'level_note': 'Trusted: Lean kernel + axioms propext/Classical.choice/Quot.sound; values are exact rationals (integers over a common '
                   'denominator) - binary64 subtraction/comparison is assumed to agree on the generated values; driver method bodies and '
                   'programmer-written check_<p> methods are scripted oracles (value / None / True / SECoP error / ValueError, KeyError, '
@@ -44,6 +55,12 @@ META = {
         'driver glue: which clause applies to a control operation (take-over by input k / by the output / none) is read off the '
         'operation and the flags recorded before it; which check_<p> returned True is recorded by the scripted check methods',
         'the two extremes of omit_unchanged_within (0 and 10^6 s) stand for every timing under the default window',
+        'overlapping operations: vlib.sched switches threads only at lock / send primitives (and, for a tree whose guard counter is a '
+        'plain integer, between its load and its store); what runs under updateLock is atomic for every other thread taking that lock; '
+        'a read of a cached value outside the lock is one reference read.  Runs in which such a read falls into the middle of another '
+        'thread\'s update (5 %) are judged but not compared with the model (the theorem covers them through the oracle `seen`)',
+        'overlapping operations, driver glue: the placement of the other threads\' assignments (before which step of an access) is '
+        'reconstructed in Python from the recorded order of lock acquisitions; a wrong placement shows as a disagreement, not as a verdict',
     ],
     'modelled_not_verified': [
         'HasAccessibles.__init_subclass__ read/write wrappers and Module.announceUpdate (callbacks, update message, omission of '
@@ -54,7 +71,9 @@ META = {
     'assumptions': [
         'user-written read_/write_/check_ bodies are oracles: they return a value of the datatype, None (True), or raise',
         'control_active and controlled_by are changed only through the mixin methods (they are readonly for clients)',
-        'sequential histories (one request or driver call at a time); start-up with configured values (writeInitParams) is not part of a history',
+        'float/enum pairs, limits and control hand-over: sequential histories (one request or driver call at a time); struct parameters: '
+        'also accesses overlapping with driver-side assignments of other threads (accesses exclude each other through accessLock); '
+        'start-up with configured values (writeInitParams) is not part of a history',
         'the member names of a struct are distinct (keys of a dict)',
     ],
 }
@@ -1948,7 +1967,8 @@ def run(ctx):
                 'struct values; floatenum - the index changed and a float write was accepted; limits - a write accepted, a write '
                 'refused and a limit moved; control - at least three distinct (controlled_by, control_active) states; labels - an '
                 'accepted label list with at least two values, not all bare labels.  40 % of the histories run with omission of '
-                'unchanged updates (omit_unchanged_within = 10^6 s), the others with 0')
+                'unchanged updates (omit_unchanged_within = 10^6 s), the others with 0.  overlapping operations (struct): a run is '
+                'non-trivial when the threads issue at least two kinds of operations, a preemption took place and the struct changed')
     big = ctx.tier == 'thorough' or ctx.escalated
     rng = ctx.rng
     cases = []
@@ -2047,7 +2067,7 @@ def _run_conc(ctx, res, corpus, big):
                 res.disagreements.append({'case': case, 'model': 'all threads finish', 'impl': sched})
             continue
         kinds = {op[0] for prog in case['progs'] for op in prog}
-        if len(kinds) >= 2 and any(c for c in info['choices']) and len({json.dumps(t['struct']) for t in trace}) >= 2:
+        if len(kinds) >= 2 and info['preemptions'] > 0 and len({json.dumps(t['struct']) for t in trace}) >= 2:
             res.nontriv({k: v for k, v in case.items() if k != 'ops'})
         for bad in new_bads(case, trace, judge['bads']):
             sig = signature(case, bad, trace)
